@@ -360,6 +360,10 @@ def run(ctx):
     for k in range(ctx.share(ctx.pick(2000, 100000))):
         check_case(recipe.gen_doc(rng, max_changes=4, max_files=3,
                                   enc_p=0.45), obs, 'general')
+    for k in range(ctx.share(ctx.pick(3000, 80000))):
+        m = mismatch_file(rng)
+        if m is not None:
+            check_payload_mismatch(*m, obs)
     # several readers alive at once: the encoding scopes of one document
     # must not reach another
 
@@ -370,7 +374,127 @@ def run(ctx):
                                    ctx.share(ctx.pick(120, 3000)))
 
 
+# --------------------------------------------------- payload / codec mismatch
+MIS_POOL = ['ascii', 'latin-1', 'cp1252', 'utf-8', 'utf-16', 'utf-16-le',
+            'cp037', 'shift_jis', 'utf-32-be']
+
+
+def mismatch_file(rng):
+    """A file in which ONE metadata section's bytes were produced with a
+    codec other than its effective (own or nearest declared) encoding.
+    Returns (data, index of that record, effective codec, payload)."""
+    import json
+    main = rng.choice(MIS_POOL)
+    cenc = rng.choice([None, None] + MIS_POOL)
+    fenc = rng.choice([None, None] + MIS_POOL)
+    own = rng.choice([None, None, None] + MIS_POOL)
+    level = rng.choice(['main', 'change', 'file'])
+    inherited = {'main': main, 'change': cenc or main,
+                 'file': fenc or cenc or main}[level]
+    eff = own or inherited
+    text = json.dumps({'k': rng.choice(['\u00e9', '\u00e9\u65e5',
+                                        'caf\u00e9 \u00fc', 'plain'])},
+                      indent=4, ensure_ascii=False) + '\n'
+    others = [c for c in MIS_POOL if c != eff]
+    rng.shuffle(others)
+    payload = None
+    for pc in others:
+        try:
+            payload = text.encode(pc)
+        except UnicodeEncodeError:
+            continue
+        if ''.encode(pc):
+            payload = payload[len(''.encode(pc)):]
+        try:
+            same = payload == text.encode(eff)[len(''.encode(eff)):]
+        except UnicodeEncodeError:
+            same = False
+        if not same:
+            break
+        payload = None
+    if payload is None:
+        return None
+
+    def meta(lvl, dots):
+        if lvl == level:
+            opts = ('encoding=%s, ' % own if own else '') + 'format=json, '
+            return (b'#' + dots + b'meta: ' + opts.encode() +
+                    b'length=%d\n' % len(payload) + payload)
+        # a plain ASCII-only section valid in every pool codec that is
+        # ASCII compatible; declared utf-8 to be independent of the rest
+        return b'#' + dots + b'meta: encoding=utf-8, length=9\n{"a": 1}\n'
+    out = [b'#diffx: encoding=%s, version=1.0\n' % main.encode()]
+    recs = 1
+    idx = None
+    if level == 'main' or rng.random() < 0.5:
+        if level == 'main':
+            idx = recs
+        out.append(meta('main', b'.'))
+        recs += 1
+    out.append(b'#.change:' + (b' encoding=%s' % cenc.encode()
+                               if cenc else b'') + b'\n')
+    recs += 1
+    if level == 'change' or rng.random() < 0.5:
+        if level == 'change':
+            idx = recs
+        out.append(meta('change', b'..'))
+        recs += 1
+    out.append(b'#..file:' + (b' encoding=%s' % fenc.encode()
+                              if fenc else b'') + b'\n')
+    recs += 1
+    if level == 'file':
+        idx = recs
+    out.append(meta('file', b'...'))
+    return b''.join(out), idx, eff, payload
+
+
+def check_payload_mismatch(data, idx, eff, payload, obs):
+    """The effective encoding - and nothing else - decides how the bytes are
+    read: the reader yields exactly what decoding with it denotes, or
+    rejects the section when that is not a JSON object ending in a newline;
+    it never falls back to another codec."""
+    import json
+    case = {'mismatch_file': data, 'index': idx, 'effective': eff,
+            'payload': payload}
+    obs.case(data, nontrivial=True)
+    obs.count('payload_mismatch_files')
+    try:
+        text = payload.decode(eff)
+        want = json.loads(text)
+        if not isinstance(want, dict) or not text.endswith('\n'):
+            want = None
+    except (UnicodeDecodeError, ValueError):
+        want = None
+    recs, exc, _ = common.read_records(data)
+    if want is None:
+        obs.count('payload_mismatch:must_reject')
+        if exc is None or len(recs) > idx:
+            obs.violation('payload_in_other_codec_accepted', case,
+                          {'yielded': recs[idx].get('metadata')
+                           if len(recs) > idx else None})
+        elif not common.is_parse_error(exc):
+            obs.violation('payload_in_other_codec_raised:%s'
+                          % common.exc_mechanism(exc), case, repr(exc)[:200])
+        return
+    obs.count('payload_mismatch:denotes_a_value_in_effective_codec')
+    if exc is not None and len(recs) <= idx:
+        if common.is_parse_error(exc):
+            # stricter than required (e.g. refusing C1 controls): fine
+            obs.count('tolerance:mojibake_payload_rejected')
+        else:
+            obs.violation('payload_in_other_codec_raised:%s'
+                          % common.exc_mechanism(exc), case, repr(exc)[:200])
+        return
+    got = recs[idx].get('metadata')
+    if not common.strict_equal(got, want):
+        obs.violation('metadata_not_decoded_with_effective_encoding', case,
+                      {'got': got, 'want': want})
+
+
 def replay(case, obs):
+    if 'mismatch_file' in case:
+        return check_payload_mismatch(case['mismatch_file'], case['index'],
+                                      case['effective'], case['payload'], obs)
     if 'concurrent' in case or 'interleaved' in case:
         return common.replay_reader_concurrency(case, obs)
     check_case(case, obs, 'replay')
